@@ -74,6 +74,7 @@ def run_config(pid, cfg, tier, seed, timeout_ms, max_paths):
         post = getattr(mod, 'post_explore', None)
         if post is not None:
             post(env, cfg, results)
+        env.finish_canaries()
     except HarnessError as e:
         res['error'] = f"HarnessError: {e}"
     except (KeyboardInterrupt, SystemExit):
